@@ -476,6 +476,17 @@ class FD:
                     bound = (lambda f: (lambda *a, **k: f(*a, **k)))(bound)
                     bound._fd_callable = True
                 return bound
+            if '__classdef__' in base.attrs and e.attr == '__class__':
+                # the class of a model instance of a pedal class: that class as a value (its constructor stand-in)
+                cd_ = base.attrs['__classdef__']
+                if getattr(cd_, '_module', None) is not None and self.sym is not None:
+                    self._mods.append(cd_._module)
+                    try:
+                        v = self.module_name(cd_.name)
+                    finally:
+                        self._mods.pop()
+                    if v is not _MISSING and getattr(v, '_fd_class', None) is cd_:
+                        return v
             if '__classdef__' in base.attrs and not (e.attr.startswith('__') and e.attr.endswith('__')):
                 pv = self.class_property(base, e.attr)
                 if pv is not _MISSING:
@@ -1247,6 +1258,17 @@ class FD:
                 finally:
                     self._mods.pop()
             raise Raised('TypeError', '%s.%s is not callable' % (recv.mod.name, attr))
+        if attr == '__class__' and isinstance(recv, Obj) and '__classdef__' in recv.attrs and self.sym is not None:
+            # self.__class__(...): a new instance of the same pedal class
+            cd_ = recv.attrs['__classdef__']
+            if getattr(cd_, '_module', None) is not None:
+                self._mods.append(cd_._module)
+                try:
+                    v = self.module_name(cd_.name)
+                finally:
+                    self._mods.pop()
+                if v is not _MISSING and getattr(v, '_fd_class', None) is cd_:
+                    return v(*args, **kwargs)
         if isinstance(recv, ClassObj) and ('classmethod:' + attr) in recv.attrs:
             return self.call_function(recv.attrs['classmethod:' + attr], list(args), kwargs, bound_self=recv)
         if isinstance(recv, Obj):
